@@ -61,7 +61,7 @@ func guard(b []byte) *guardedSlice {
 	}
 	return &guardedSlice{full: full, snap: append([]byte{}, full...), n: len(b)}
 }
-func (g *guardedSlice) arg() []byte { return g.full[:g.n] }
+func (g *guardedSlice) arg() []byte  { return g.full[:g.n] }
 func (g *guardedSlice) intact() bool { return bytes.Equal(g.full, g.snap) }
 
 func c07EvalB58Bytes(w *mc.W, cas c07Bytes) {
@@ -325,7 +325,6 @@ func c07EvalConv(w *mc.W, cas c07Conv) {
 		}
 	}
 }
-
 
 // ---------------------------------------------------------------------------------------
 
